@@ -451,8 +451,17 @@ def gen_step_case(rng):
     elif mode < 0.75:
         fam = "off-by-k"
         k = rng.choice([1, 1, 2, 5, 1000])
-        side = rng.choice(["tstart", "tend", "qstart", "qend", "block"])
-        if side == "block":
+        side = rng.choice(["tstart", "tend", "qstart", "qend", "block", "both-ends", "both-ends"])
+        if side == "both-ends":
+            # both declared ends short (or long) by the same amount - e.g. exactly the last block, so that the records before it
+            # already land on both ends
+            d = rng.choice([blocks[-1][0], blocks[-1][0], k, -k])
+            c["tend"] = min(max(c["tend"] - d, c["tstart"]), c["tsize"])
+            c["qend"] = min(max(c["qend"] - d, c["qstart"]), c["qsize"])
+            side = "none"
+        if side == "none":
+            pass
+        elif side == "block":
             i = rng.randrange(len(blocks))
             b = list(blocks[i])
             j = rng.randrange(len(b))
@@ -537,7 +546,7 @@ def c04_exhaustive_small():
                 tlen = sum(b[0] + (b[1] if len(b) == 3 else 0) for b in blocks)
                 qlen = sum(b[0] + (b[2] if len(b) == 3 else 0) for b in blocks)
                 for ts, qs, t0, q0 in itertools.product("+-", "+-", (0, 1), (0, 1)):
-                    for dt_, dq_ in ((0, 0), (1, 0), (0, 1), (-1, 0), (0, -1)):
+                    for dt_, dq_ in ((0, 0), (1, 0), (0, 1), (-1, 0), (0, -1), (-1, -1), (1, 1), (-2, -2)):
                         tend, qend = t0 + tlen + dt_, q0 + qlen + dq_
                         if tend < t0 or qend < q0:
                             continue
@@ -764,6 +773,14 @@ def gen_C07(rng, tier):
         case, data = sections_case(rng, kinds, texts)
         groups.append(group("sections", "c07_sections", [case], params={"nlines": len(kinds)}, nontrivial=len(kinds) > 1))
         groups.append(group("lines", "c07_lines", ["lines " + gen.src_tok(data)], params={"nlines": len(kinds)}, nontrivial=len(kinds) > 1))
+        if rng.random() < 0.2 and data:
+            # the same bytes delivered in pieces (multi-byte characters and CRLF cut anywhere), and once more ending inside a
+            # multi-byte character: still at most one item per line
+            d2 = data if rng.random() < 0.6 else data + rng.choice([b"\xce", b"\xe2\x82", b"\xf0\x9f\x98"])
+            chunks = gen.composition(rng, d2, rng.choice(["bytes", "two", "rand"]))
+            extra = 0 if d2 is data else 1
+            groups.append(group("sections-chunked", "c07_sections", ["sections " + gen.src_tok(d2, chunks)], params={"nlines": len(kinds) + extra}))
+            groups.append(group("lines-chunked", "c07_lines", ["lines " + gen.src_tok(d2, chunks)], params={"nlines": len(kinds) + extra}))
     for _ in range(n):
         c, fam = gen_step_case(rng)
         case = "step %s %s" % (xtok(gen.header_line(c).encode("latin-1")), ",".join(rec_tok(b) for b in c["blocks"]))
